@@ -209,7 +209,7 @@ def score(metric, mask_f, ref_f):
 
 def assign(sc, alg):
     K = sc.shape[0]
-    scale = max(float(np.abs(sc).max()), 1e-300)
+    scale = max(float(np.abs(sc).max()), 1e-300) * (1e5 if sc.dtype == np.float32 else 1.0)      # near-tie threshold in units of the dtype's rounding
     if alg == 'greedy':
         s = sc.astype(float).copy()
         out = np.zeros(K, dtype=int)
@@ -251,7 +251,7 @@ def own_plan(F, start, width, shift, main_it, sub_it):
 
 def transcribe_dhtv(mask, metric, alg, start, width, shift, main_it, sub_it):
     K, F, T = mask.shape
-    feat = vnorm(mask) if metric == 'cos' else mask.astype(float).copy()
+    feat = vnorm(mask) if metric == 'cos' else mask.copy()
     mapping = np.repeat(np.arange(K)[:, None], F, axis=1)
     for iters, a, b in own_plan(F, start, width, shift, main_it, sub_it):
         for _ in range(iters):
@@ -286,7 +286,14 @@ def run_transcription(case, R):
     rng = gen.rng_of(case)
     K, F, T = case['K'], case['F'], case['T']
     mask = rng.uniform(0.05, 1.0, size=(K, F, T))
-    info = dict(aligner=case['aligner'], metric=case['metric'], alg=case['alg'], K=K, F=F, T=T)
+    single = case['rs'][-1] % 5 == 0
+    if case['rs'][-1] % 4 == 0:
+        # the same tie-free mask at a tiny scale (exact power of two; products of two entries stay normal numbers of the dtype)
+        mask = mask * 2.0 ** -int(rng.integers(40, 80) if not single else rng.integers(10, 20))
+    if single:
+        mask = mask.astype(np.float32)
+    before = mask.copy()
+    info = dict(aligner=case['aligner'], metric=case['metric'], alg=case['alg'], K=K, F=F, T=T, scale=float(np.abs(mask).max()), dtype=str(mask.dtype))
     try:
         if case['aligner'] == 'dhtv':
             width = int(rng.integers(1, F + 1)); start = int(rng.integers(0, F - width + 1)); shift = int(rng.integers(1, width + 1))
@@ -294,6 +301,14 @@ def run_transcription(case, R):
             info.update(start=start, width=width, shift=shift, main_iterations=mi, sub_iterations=si)
             al = pa.DHTVPermutationAlignment(stft_size=2 * (F - 1), segment_start=start, segment_width=width, segment_shift=shift,
                                              main_iterations=mi, sub_iterations=si, similarity_metric=case['metric'], algorithm=case['alg'])
+            if case['rs'][-1] % 3 == 0 and F >= 5:
+                # one aligner object, used with another configuration before (attributes are public): the plan must follow them
+                al.stft_size, al.segment_start, al.segment_width, al.segment_shift = 2 * (F - 1), 0, F, 1
+                _ = al.alignment_plan
+                _ = al.calculate_mapping(mask)
+                al.segment_start, al.segment_width, al.segment_shift = start, width, shift
+                R.check('C16.plan', [list(p) for p in al.alignment_plan] == own_plan(F, start, width, shift, mi, si), 'plan/stale-after-reconfiguration',
+                        'alignment_plan does not follow the aligner attributes after they were changed', **info)
             got = al.calculate_mapping(mask)
             ref = transcribe_dhtv(mask, case['metric'], case['alg'], start, width, shift, mi, si)
         else:
@@ -310,8 +325,9 @@ def run_transcription(case, R):
         return
     R.check('C16.transcription', got.shape == ref.shape and np.array_equal(got, ref), f'transcription/{case["aligner"]}/{case["metric"]}/{case["alg"] if case["aligner"] == "dhtv" else "-"}',
             f'{case["aligner"]} mapping differs from the loop-level transcription of its procedure in {int((np.asarray(got) != ref).any(axis=0).sum()) if got.shape == ref.shape else "?"} bins', **info)
+    R.check('C16.transcription', np.array_equal(mask, before), f'transcription/input-modified/{case["aligner"]}', 'the aligner modified the mask it was given', **info)
     out = al(mask)
-    R.check('C16.transcription', np.array_equal(out, pa.apply_mapping(mask, ref)), f'transcription/aligned-mask/{case["aligner"]}', 'applying the mapping does not reproduce the aligned mask of the procedure', **info)
+    R.check('C16.transcription', np.array_equal(out, pa.apply_mapping(before, ref)), f'transcription/aligned-mask/{case["aligner"]}', 'applying the mapping does not reproduce the aligned mask of the procedure', **info)
     if K >= 2 and F >= 3:
         R.mark_nontrivial('transcription', case['aligner'], case['metric'], case['alg'], K, F)
     R.sample(dict(lane='transcription', **info))
